@@ -864,3 +864,138 @@ func isCallTo(c *Ctx, v ssa.Value, name string) bool {
 	cal := c.p.callee(&call.Call)
 	return cal != nil && relName(cal) == name
 }
+
+// ruleDerefLoop: "a pointer to one at any depth": derefPtr follows pointers
+// until none is left - its loop is left only where the current type is not a
+// pointer, the value's kind is not Ptr, or the pointer is nil.  A hop limit
+// would make leaves behind deeper chains incomparable.
+func (c *Ctx) ruleDerefLoop() {
+	rep := c.rep
+	fn := c.anchor("R-COVER", "derefPtr")
+	if fn == nil {
+		return
+	}
+	pos := c.p.pos(fn.Pos())
+	fa := c.eng.analyze(fn, nil)
+	if len(fa.loopOf) != 1 {
+		rep.bad("R-COVER", "derefPtr", "pointers followed to the end", pos, fmt.Sprintf("expected one loop following the pointer chain, found %d", len(fa.loopOf)))
+		return
+	}
+	var problems []string
+	nExit := 0
+	for hdr, blocks := range fa.loopOf {
+		_ = hdr
+		for bi, succs := range fa.edgeOut {
+			if !blocks[bi] {
+				continue
+			}
+			for j, sb := range bi.Succs {
+				if blocks[sb] || j >= len(succs) {
+					continue
+				}
+				for _, s := range succs[j] {
+					if s.dead {
+						continue
+					}
+					nExit++
+					end := false
+					for _, f := range s.factList() {
+						if f.Kind != aTR {
+							continue
+						}
+						switch {
+						case !f.Val && f.T.K == "APP" && f.T.S == "isPtr":
+							end = true // the type is no pointer
+						case f.Val && f.T.K == "ISNIL":
+							end = true // a nil pointer is left as it is
+						case !f.Val && f.T.K == "B" && f.T.S == "==" && ((f.T.A.K == "KIND" && f.T.B.K == "C") || (f.T.B.K == "KIND" && f.T.A.K == "C")):
+							k := f.T.A
+							if k.K != "C" {
+								k = f.T.B
+							}
+							if v, ok := constInt64(k.Const); ok && v == kPtr {
+								end = true // the value is no pointer
+							}
+						}
+					}
+					if !end {
+						problems = append(problems, fmt.Sprintf("the loop can be left (block %d -> %d) while the value may still be a non-nil pointer: deeper pointer chains are not followed to their target", bi.Index, sb.Index))
+					}
+				}
+			}
+		}
+	}
+	if nExit == 0 {
+		problems = append(problems, "no loop exit found")
+	}
+	if len(problems) == 0 {
+		rep.ok("R-COVER", "derefPtr", "pointers followed to the end", pos, "the loop ends only on a non-pointer type, a non-pointer value or a nil pointer")
+	} else {
+		sort.Strings(problems)
+		rep.bad("R-COVER", "derefPtr", "pointers followed to the end", pos, strings.Join(uniq(problems), "; "))
+	}
+}
+
+// eqDeciders: functions from outside the package that the equality code may
+// use to *decide* something (result used as, or compared into, a verdict).
+// Confirmed by reading; one reason each.  Any other external function whose
+// result is a bool or an int and that is called inside the equality scope is
+// reported: a comparison helper with different semantics (case folding,
+// DeepEqual's treatment of unexported fields, ...) changes what "equal" means.
+var eqDeciders = map[string]string{
+	"(reflect.Value).CanInterface": "readability test ahead of Interface() (unexported struct fields are skipped, R-CANIF)",
+	"(reflect.Value).Cap":          "capacity of a slice leaf, compared with ==",
+	"(reflect.Value).Len":          "length of a slice/array/map leaf, compared with ==",
+	"(reflect.Value).Equal":        "exact equality of two primitive values (reached only with operands accepted by isKnownPrimitive, R-REFL)",
+	"(reflect.Value).IsNil":        "nil test on a pointer while following a pointer chain",
+	"(reflect.Value).IsValid":      "validity test on a reflect.Value",
+	"(reflect.Value).IsZero":       "zero test ahead of a method lookup",
+	"unicode.IsUpper":              "case detection in foldValue (rendering of operator words; no user value is compared with it)",
+	"strings.Compare":              "exact three-way comparison of strings",
+	"bytes.Equal":                  "exact comparison of byte slices",
+	"bytes.Compare":                "exact three-way comparison of byte slices",
+}
+
+func (c *Ctx) ruleEqDeciders(scope []*ssa.Function) {
+	rep := c.rep
+	seen := map[string][]string{}
+	for _, fn := range scope {
+		for _, b := range fn.Blocks {
+			for _, in := range b.Instrs {
+				cc := callCommon(in)
+				if cc == nil {
+					continue
+				}
+				cal := c.p.callee(cc)
+				if cal == nil || c.p.inPkg(cal) {
+					continue
+				}
+				res := cal.Signature.Results()
+				decides := false
+				for i := 0; i < res.Len(); i++ {
+					if bt, ok := res.At(i).Type().Underlying().(*types.Basic); ok && (bt.Kind() == types.Bool || bt.Kind() == types.Int) {
+						decides = true
+					}
+				}
+				if !decides {
+					continue
+				}
+				seen[cal.String()] = append(seen[cal.String()], relName(fn))
+			}
+		}
+	}
+	var names []string
+	for n := range seen {
+		names = append(names, n)
+	}
+	sort.Strings(names)
+	rep.Extra["equality_scope_external_deciders"] = names
+	for _, n := range names {
+		users := uniq(sortedCopy(seen[n]))
+		if why, ok := eqDeciders[n]; ok {
+			rep.ok("R-COVER", "equality scope", "external decider "+n, "?", why+" (used by "+strings.Join(users, ", ")+")")
+		} else {
+			rep.bad("R-COVER", "equality scope", "external decider "+n, "?", "an external function not in the confirmed table decides something inside the equality code (used by "+strings.Join(users, ", ")+"): its notion of equality has not been reviewed")
+		}
+	}
+}
